@@ -256,7 +256,8 @@ def run_history(history, rec: Rec | None, case_desc, fs=None, collect=None):
     for i, ev in enumerate(history):
         p = POINTS[ev[0]]
         x = np.array(p, dtype=float)
-        b.calculate_likelihood_and_derivatives(x, scaled=bool(ev[1]), hessian=False, bhhh=False)
+        flags = ev[2] if len(ev) > 2 else 0   # 0: gradient only, 1: + hessian, 2: + bhhh, 3: both
+        b.calculate_likelihood_and_derivatives(x, scaled=bool(ev[1]), hessian=bool(flags & 1), bhhh=bool(flags & 2))
         f, fin = ref_ll(p)
         ref.evaluate(p, f, fin)
         content = read_file(fs)
@@ -272,8 +273,12 @@ def run_history(history, rec: Rec | None, case_desc, fs=None, collect=None):
 
 # --------------------------------------------------------------------------- tasks
 def events(with_scaled):
+    """(point, scaled, derivative flags): the flags vary which second-order quantities are requested with the
+    evaluation (0 none, 1 Hessian, 2 BHHH, 3 both); saving must not depend on them."""
     pts = list(POINTS)
-    return [(p, s) for p in pts for s in ((0, 1) if with_scaled else (0,))]
+    if not with_scaled:
+        return [(p, 0, 0) for p in pts]
+    return [(p, s, f) for p in pts for (s, f) in ((0, 0), (1, 0), (0, 1), (1, 2), (0, 3))]
 
 
 def tasks(tier, seed):
